@@ -24,12 +24,14 @@ ASSUMPTIONS = ['operand values inside the domain of f with a margin; fluctuation
                'num_grad compared at 1e-6, everything else at 1e-9 relative']
 
 
-def _operands(rng, cls, k, with_cov=False):
+def _operands(rng, cls, k, with_cov=False, zero_ok=False):
     lays = gen.operand_layouts(rng, cls, k)
     ops = []
     for lay in lays:
         mean = float(np.round(rng.uniform(0.5, 2.2), 3)) * (1 if rng.random() < 0.85 else -1)
         ops.append(gen.make_obs(rng, lay, mean=mean, sigma=float(rng.uniform(0.01, 0.04)), tau=float(rng.choice([0, 0, 2.0]))))
+        if zero_ok and rng.random() < 0.1:
+            ops[-1] = ops[-1] - ops[-1].value          # fluctuates around a central value that is exactly zero
     if with_cov:
         dim = int(rng.integers(1, 4))
         a = rng.normal(size=(dim, dim))
@@ -73,7 +75,7 @@ def expr_cases(rng, n, ctx, tag, classes=None, with_cov_frac=0.25):
         cls = classes[i % len(classes)]
         k = int(rng.integers(1, 4))
         with_cov = rng.random() < with_cov_frac
-        ops = _operands(rng, cls, k, with_cov)
+        ops = _operands(rng, cls, k, with_cov, zero_ok=True)
         vals = [float(o.value) for o in ops]
         e = gen.random_expr(rng, k, vals, depth=int(rng.integers(1, 4)))
         if e is None:
@@ -191,6 +193,10 @@ def complex_cases(rng, n, ctx, classes):
         if same:
             lays = [lays[0]] * 4
         real_obs = [gen.make_obs(rng, lay, mean=float(np.round(rng.uniform(0.6, 2.0), 3)), sigma=0.03) for lay in lays]
+        # a part whose central value is exactly zero still fluctuates (a purely real or purely imaginary mean says nothing about the fluctuations)
+        for q in (1, 3):
+            if rng.random() < 0.2:
+                real_obs[q] = real_obs[q] - real_obs[q].value
         # leaves: 0 = CObs(o1, o2), 1 = CObs(o3, o4) or real Obs o3, plus numbers
         leafs = []
         exprs = []
